@@ -68,9 +68,13 @@ type world struct {
 
 var addrDomain = [][]net.IP{nil, {v4a}, {v6a}, {v4a, v6a}, {v4a, v4a, v4b},
 	// only used by the mapped-address family (indexes 5..7)
-	{v6m}, {v6m, v4a}, {v4a, v6m, v6a}}
+	{v6m}, {v6m, v4a}, {v4a, v6m, v6a},
+	// index 8: an address list that is EMPTY BUT NOT NIL (make(...,0,n), what filtering leaves behind, a JSON "[]"): "the origin
+	// has none" all the same (used by families 0 and E)
+	{}}
 
 const plainAddrDomain = 5
+const emptyNonNilAddr = 8
 
 // Additional for target "t1" (t2 never has an entry)
 var addlDomain = [][]net.IP{{v4a, v6b}, {v4b}, {},
@@ -82,7 +86,10 @@ const sentinel = "SENTINEL-spare-capacity"
 
 func build(w world) ech.ResolveResult {
 	r := ech.ResolveResult{Port: uint16(w.Port)}
-	if a := addrDomain[w.Addr]; a != nil {
+	if a := addrDomain[w.Addr]; w.Addr == emptyNonNilAddr {
+		r.Address = make([]net.IP, 0, 2)
+		_ = a
+	} else if a != nil {
 		r.Address = make([]net.IP, len(a), len(a)+2)
 		for i := range a {
 			r.Address[i] = append(net.IP{}, a[i]...)
@@ -381,6 +388,25 @@ func evalWorld(r *ev.Run, w world) {
 		}
 		r.Violation(key, fmt.Sprintf("targets differ from the reference:\n got  %v\n want %v", got, want), w)
 	}
+	// a consumer may do what it likes with the targets it was handed (sort the ALPN list, overwrite entries): an enumeration of
+	// ANOTHER result built from the same description still gives the reference targets (nothing is shared between results
+	// through package-level storage)
+	if w.Stop < 0 && len(got) > 0 {
+		seq(func(t ech.Target) bool {
+			for i := range t.ALPN {
+				t.ALPN[i] = "scribbled-by-consumer"
+			}
+			for i := range t.ECH {
+				t.ECH[i] ^= 0xff
+			}
+			return true
+		})
+		fresh := build(w)
+		if got3, _ := collect(fresh, w.Network, w.Stop); !reflect.DeepEqual(got3, got) {
+			r.Violation("impure:another-result-affected-by-consumer-edits", fmt.Sprintf("after a consumer edited the ALPN/ECH slices of the targets it had been handed, an independent result built from the same data yields %v (before: %v)", got3, got), w)
+		}
+		// (the edited result itself is used no more: for no-default-alpn records the yielded list IS the record's own)
+	}
 	oc := fmt.Sprintf("n=%d", len(got))
 	nontrivial := ""
 	if len(got) > 0 {
@@ -502,6 +528,14 @@ func Run(r *ev.Run) {
 		return w
 	})
 	sizes = append(sizes, pu.Size())
+
+	// family E: the origin's address list is empty but not nil; one record over targets x hints x ports x networks x stops
+	pe := enum.Product{3, 4, 2, len(ports), len(networks), len(stops), 3}
+	worlds = append(worlds, func(i int) world {
+		d := pe.Decode(i)
+		return world{Recs: []recSpec{{1 + d[2], targets[d[0]], 0, d[1], 1, []int{0, 1, 4}[d[6]]}}, Addr: emptyNonNilAddr, Addl: 0, Port: ports[d[3]], Network: networks[d[4]], Stop: stops[d[5]]}
+	})
+	sizes = append(sizes, pe.Size())
 
 	// family D: an ALPN list with the same protocol id twice in a row, with no-default-alpn (the record's own slice is what is
 	// yielded then), one or two records
